@@ -98,8 +98,9 @@ Ifaces(p, o, sk) ==
   \o (IF o \in {"ifaceU", "ifaceT"} THEN <<[name |-> "I2", methods |-> I2Methods(o, sk)]>> ELSE << >>)
 
 \* the mocks the single output file contains: (struct name, interface, which configs entry configures it)
+TwoEntries == {"entry2", "entry2x", "entry2y"}
 MocksOf(o, lv) ==
-  (IF lv = "entry2"
+  (IF lv \in TwoEntries
    THEN <<[struct |-> "MockI1", iface |-> "I1", entry |-> "e0"], [struct |-> "MockI1R", iface |-> "I1", entry |-> "e1"]>>
    ELSE <<[struct |-> "MockI1", iface |-> "I1", entry |-> "e0"]>>)
   \o (IF o \in {"ifaceU", "ifaceT"} THEN <<[struct |-> "MockI2", iface |-> "I2", entry |-> "i2"]>> ELSE << >>)
@@ -109,11 +110,23 @@ MethodsOfIface(p, o, sk, iname) == IF iname = "I1" THEN I1Methods(p, o, sk) ELSE
 -----------------------------------------------------------------------------
 (* Contract *)
 
-\* the level the mapping is written at covers this mock
-Covered(mk, lv) ==
-  \/ lv \in {"root", "pkg"}
-  \/ lv \in {"iface", "entry"} /\ mk.iface = "I1"
-  \/ lv = "entry2" /\ mk.entry = "e1"
+\* Levels.  One mapping written at root / pkg / iface (I1) / entry (I1's only configs entry) / entry2 (the second of
+\* two configs entries of I1).  And TWO mappings of the same source type to DIFFERENT targets for two mocks that
+\* share the output file: entry2x / entry2y (the two configs entries of I1, either order), iface2x / iface2y (the
+\* interface-level configs of I1 and I2, either order).
+\* To2: the other target -- another type in another package than the first.
+To2Of(tg) == IF tg = "samename" THEN Nm("alt", "R2") ELSE Nm("same", "R2")
+\* the target this mock's own config maps the key to; NoTarget if no level on its chain carries the mapping
+NoTarget == Bas("")
+MockTo(mk, lv, tg) ==
+  CASE lv \in {"root", "pkg"}                          -> ToOf(tg)
+    [] lv \in {"iface", "entry"}                       -> IF mk.iface = "I1" THEN ToOf(tg) ELSE NoTarget
+    [] lv = "entry2"                                   -> IF mk.entry = "e1" THEN ToOf(tg) ELSE NoTarget
+    [] lv = "entry2x"                                  -> IF mk.entry = "e0" THEN ToOf(tg) ELSE IF mk.entry = "e1" THEN To2Of(tg) ELSE NoTarget
+    [] lv = "entry2y"                                  -> IF mk.entry = "e0" THEN To2Of(tg) ELSE IF mk.entry = "e1" THEN ToOf(tg) ELSE NoTarget
+    [] lv = "iface2x"                                  -> IF mk.iface = "I1" THEN ToOf(tg) ELSE To2Of(tg)
+    [] lv = "iface2y"                                  -> IF mk.iface = "I1" THEN To2Of(tg) ELSE ToOf(tg)
+Covered(mk, lv) == MockTo(mk, lv, "named") # NoTarget
 
 \* a choice fixes what the documentation leaves open: the constructor kinds through which the
 \* replacement descends.  A replaceable type is identified by (package path, name): a parameter spelled with
@@ -165,7 +178,7 @@ RenderAll(p, o, sk, tg, lv, ch, on) ==
   [i \in DOMAIN mks |->
      LET ms == MethodsOfIface(p, o, sk, mks[i].iface) IN
      [struct |-> mks[i].struct, iface |-> mks[i].iface,
-      methods |-> [j \in DOMAIN ms |-> RenderMethod(ms[j], on /\ Covered(mks[i], lv), ch, sk, ToOf(tg))]]]
+      methods |-> [j \in DOMAIN ms |-> RenderMethod(ms[j], on /\ Covered(mks[i], lv), ch, sk, MockTo(mks[i], lv, tg))]]]
 
 \* only the open points that occur in the case matter; restricting the choices keeps Accept small
 KindsIn(p) == CASE p = "variadic" -> {"variadic"}
